@@ -621,6 +621,19 @@ class Dyn(Calls):
 
     def _ev_Subscript(self, n):
         if isinstance(n.slice, ast.Slice):
+            hooks = getattr(self.reg, "slice_hooks", None)
+            if hooks:
+                base = self.ev(n.value)
+                if isinstance(base, VObj) and base.cls in hooks:
+                    # assumed model of slicing a library object (e.g. pandas .iloc[a:b])
+                    lo = self.ev(n.slice.lower) if n.slice.lower is not None else None
+                    hi = self.ev(n.slice.upper) if n.slice.upper is not None else None
+                    return hooks[base.cls](self, base, lo, hi)
+                self._pre_base = (n.value, base)
+                try:
+                    return super().ev_Subscript(n)
+                finally:
+                    self._pre_base = None
             return super().ev_Subscript(n)
         base = self.ev(n.value)
         if base is VNone and self.spec_mode:
